@@ -140,3 +140,21 @@ Proof.
       + destruct (fold_left _ _ _) as [tx' ks']. injection E as <- _. reflexivity. }
   split; [|exact T]. rewrite !raw_content, T in R. now apply app_inv_tail in R.
 Qed.
+
+(* strip_tags on an element that is itself stripped: everything of the element, its own tail included, is in the new paragraph *)
+Theorem strip_default_raw a0 sp pr n n' : sp (kind_of n) (match n with Node _ _ s _ _ _ => s end) = true ->
+  strip_ok sp pr false n = true -> fold_ok (fst (strip_ collapse sp pr false n)) (None, []) = true ->
+  strip_default collapse a0 sp pr n = Some n' -> raw (content n') = raw (flat n).
+Proof.
+  intros Hs Hok Hf H. unfold strip_default in H. pose proof (strip_raw sp pr n false Hok) as R.
+  destruct (strip_ collapse sp pr false n) as [ps m] eqn:E. cbn [fst] in R, Hf.
+  assert (M : m = true).
+  { destruct n as [k a sel tx ks tl]. cbn [strip_ kind_of] in E. cbn [kind_of] in Hs. rewrite Hs in E. cbn [negb andb] in E. now injection E as _ <-. }
+  subst m. rewrite Hs in H.
+  assert (H' : (let '(tx, ks) := fold_left (append_piece collapse) ps (None, []) in Some (Node KP a0 false tx ks None)) = Some n')
+    by (destruct ps as [|[s|x] [|p q]]; exact H).
+  pose proof (fold_append_raw ps (None, []) Hf) as F.
+  destruct (fold_left (append_piece collapse) ps (None, [])) as [tx' ks']. injection H' as <-.
+  unfold raw_state in F. cbn [fst snd oget flat_map app] in F. cbn [content]. rewrite raw_app, raw_otxt, F, R.
+  reflexivity.
+Qed.
